@@ -874,9 +874,55 @@ func (a *act) builtin(b *ssa.Builtin, c *ssa.CallCommon, args []Val, guard strin
 			t = App(f, t, x.T)
 		}
 		return Val{T: t, S: SInt, GT: c.Args[0].Type()}
+	case "ssa:wrapnilchk":
+		// receiver of a promoted / wrapped method: the value itself, which must not be nil
+		if args[0].S == SRef {
+			a.nilObl(args[0], guard, pos, "wrapped method receiver")
+		}
+		return args[0]
 	}
 	unsupportedf("builtin %s", b.Name())
 	return Val{}
+}
+
+// havocItems gives the listed locations arbitrary new contents (objects that are not listed and existed before keep theirs).
+func (fx *FX) havocItems(items []modItem, pre *State, st *State, guard string) {
+	byHeap := map[string][]modItem{}
+	var heaps []string
+	for _, it := range items {
+		if _, ok := byHeap[it.heap]; !ok {
+			heaps = append(heaps, it.heap)
+		}
+		byHeap[it.heap] = append(byHeap[it.heap], it)
+	}
+	nowBefore := fx.now(pre)
+	for _, h := range heaps {
+		its := byHeap[h]
+		srt := its[0].sort
+		oldT := fx.sv(pre, h, srt)
+		newT := fx.havocSV(st, h, srt)
+		whole := false
+		var excl []string
+		for _, it := range its {
+			if it.obj == "" {
+				whole = true
+			}
+			excl = append(excl, Not(Eq("o", it.obj)))
+		}
+		if whole {
+			continue
+		}
+		k, _, isArr := splitArr(srt)
+		if !isArr {
+			continue
+		}
+		fx.ctx.Assert(Imp(guard, fmt.Sprintf("(forall ((o %s)) (! (=> %s (= (select %s o) (select %s o))) :pattern ((select %s o))))", k, And(excl...), newT, oldT, newT)))
+	}
+	n := fx.havocSV(st, "$now", SInt)
+	fx.ctx.Assert(fmt.Sprintf("(>= %s %s)", n, nowBefore))
+	for _, h := range heaps {
+		fx.heapAllocFacts(byHeap[h][0].sort, fx.sv(st, h, byHeap[h][0].sort), fx.now(st), "true")
+	}
 }
 
 // goStmt: only the fork-join pattern handled by flag "forkjoin" is supported (see DESIGN).
